@@ -231,6 +231,10 @@ func (w *World) run() {
 	w.releaseStalled()
 	w.drain()
 	w.snapshot("drain2")
+	if w.c.Raw == nil && w.c.Reg == nil {
+		w.setPhase("probe")
+		w.probe()
+	}
 	w.setPhase("end")
 	w.liftCapacity()
 	w.endTunnels()
@@ -463,6 +467,7 @@ var sleepSafe = map[string]bool{
 	"client.cancel.afterFinish":            true,
 	"server.halfClose.beforeReceiverClose": true,
 	"client.close.afterTearDown":           true,
+	"receiver.closure.afterWake":           true,
 }
 
 func (w *World) installYields() {
@@ -1112,12 +1117,14 @@ func (w *World) callCtx(r *rpcState) (context.Context, []grpc.CallOption) {
 	tag := strconv.Itoa(r.idx)
 	if !sp.NoMD {
 		md := metadata.MD{}
-		for k, v := range sp.ReqMD {
-			md[k] = append([]string{}, v...)
+		for k, v := range decMD(sp.ReqMD) {
+			md[k] = v
 		}
 		md.Set(tagKey, tag)
 		if len(sp.GrpcTimeout) > 0 {
-			md["grpc-timeout"] = append([]string{}, sp.GrpcTimeout...)
+			for _, v := range sp.GrpcTimeout {
+				md["grpc-timeout"] = append(md["grpc-timeout"], decStr(v))
+			}
 		}
 		ctx = metadata.NewOutgoingContext(ctx, md)
 	}
@@ -1150,7 +1157,7 @@ func (w *World) methodOf(sp *RPC) string {
 		if sp.Method == "<empty>" {
 			return ""
 		}
-		return sp.Method
+		return decStr(sp.Method)
 	}
 	return shapeMethod(sp.Shape)
 }
@@ -1205,6 +1212,10 @@ func (w *World) recordHeaderNow(r *rpcState, rec *OpRec) {
 			err error
 		}
 		ch := make(chan res, 1)
+		if rec.Extra == nil {
+			rec.Extra = map[string]string{}
+		}
+		rec.Extra["header_now_attempted"] = "1"
 		go func() {
 			md, err := r.stream.Header()
 			ch <- res{md, err}
@@ -1245,6 +1256,7 @@ func (w *World) buildCallerActors(r *rpcState) {
 		a := w.newActor(name+".invoke", r.idx, "caller")
 		a.group = sp.Starter
 		a.stalled = sp.StallSend
+		a.enabled = func() bool { return sp.AfterEvent == 0 || w.eventsDone[sp.AfterEvent-1] }
 		fired := false
 		a.next = func() *opSpec {
 			if fired {
@@ -1260,6 +1272,7 @@ func (w *World) buildCallerActors(r *rpcState) {
 	as := w.newActor(name+".send", r.idx, "caller")
 	as.group = sp.Starter
 	as.stalled = sp.StallSend
+	as.enabled = func() bool { return sp.AfterEvent == 0 || w.eventsDone[sp.AfterEvent-1] }
 	nsend := len(sp.Req)
 	if sp.ExtraSend {
 		nsend++
@@ -1740,8 +1753,8 @@ func unaryHandler(srv any, ctx context.Context, dec func(any) error, _ grpc.Unar
 
 func (w *World) opHandlerMD(ctx context.Context, ss grpc.ServerStream, op MDOp, rec *OpRec) {
 	md := metadata.MD{}
-	for k, v := range op.MD {
-		md[k] = append([]string{}, v...)
+	for k, v := range decMD(op.MD) {
+		md[k] = v
 	}
 	if op.MD == nil {
 		md = nil
@@ -1838,6 +1851,12 @@ func streamHandlerFor(shape string) grpc.StreamHandler {
 		var retErr error
 		stage, opi := 0, 0
 		extraDone := false
+		as.enabled = func() bool {
+			if sp.HWaitRecv && sp.HRecvs >= 0 && stage == 0 && opi >= len(sp.HOps) && (!sp.HExtraSend || extraDone) {
+				return r.hRecvTerm // about to return: wait for the receiving side
+			}
+			return true
+		}
 		as.next = func() *opSpec {
 			switch stage {
 			case 0:
@@ -2177,6 +2196,39 @@ func (w *World) eventCall(rec *EventRec, f func()) {
 		}
 	}()
 	f()
+}
+
+// probe issues one fresh unary RPC on the default channel and drains: is the tunnel still usable?
+func (w *World) probe() {
+	pr := &ProbeRec{Code: CodeNil}
+	w.mu.Lock()
+	idx := len(w.rpcs)
+	spec := &RPC{Shape: "unary", Req: []int{3}, Resp: []int{5}, Role: "probe"}
+	r := &rpcState{idx: idx, spec: spec}
+	w.rpcs = append(w.rpcs, r)
+	pr.Step = w.step
+	w.tr.Probe = pr
+	w.mu.Unlock()
+	before := len(w.net.Frames())
+	a := w.newActor(fmt.Sprintf("c%d.probe", idx), idx, "caller")
+	fired := false
+	a.next = func() *opSpec {
+		if fired {
+			return nil
+		}
+		fired = true
+		return &opSpec{kind: "invoke", run: func(rec *OpRec) {
+			w.opInvoke(r, rec)
+			w.mu.Lock()
+			pr.Returned = true
+			pr.Code = rec.Code
+			pr.Err = rec.Err
+			w.mu.Unlock()
+		}}
+	}
+	w.startActor(a)
+	w.drain()
+	pr.Frames = len(w.net.Frames()) - before
 }
 
 // endTunnels ends every tunnel that is still up, the clean way.
